@@ -456,6 +456,7 @@ structure QObs where
   viaSkip : Text            -- oci: through verifier.SkipVerify, same vocabulary; blob: ""
   copyEqual : Bool          -- the handed-out contents equal a statement of the original document
   intact : Bool             -- after mutating everything reachable from the copy, the same query returns the same contents
+  independent : Bool        -- mutating the SECOND handed-out copy (other values) leaves what the first one holds untouched
   deriving DecidableEq, Repr, FromJson, ToJson
 
 structure Obs where
@@ -467,13 +468,21 @@ structure Obs where
 
 def mutated : Text := "x-mutated".toList
 
-/-- "mutate everything reachable" from copy `h` (whose cells are `c`) -/
-def scrambleOps (doc : List Stmt) (h : Nat) (c : Copy) : List Op :=
-  [ .writeSlice h .scopes ((readSlice doc c.scopes).map (fun _ => mutated)),
-    .writeSlice h .stores ((readSlice doc c.stores).map (fun _ => mutated)),
-    .writeSlice h .identities ((readSlice doc c.identities).map (fun _ => mutated)),
-    .writeMap h [("x-mutated", "x")],
-    .writeScalars h mutated "x-mutated" (!c.isGlobal) ]
+/-- "mutate everything reachable" from copy `h` (whose cells are `c`): overwrite the elements of
+every slice, write into the Override map (insert / change / delete keys), replace the scalars -/
+def scrambleOpsWith (mark : Text) (markS : String) (doc : List Stmt) (h : Nat) (c : Copy) : List Op :=
+  [ .writeSlice h .scopes ((readSlice doc c.scopes).map (fun _ => mark)),
+    .writeSlice h .stores ((readSlice doc c.stores).map (fun _ => mark)),
+    .writeSlice h .identities ((readSlice doc c.identities).map (fun _ => mark)),
+    .writeMap h [(markS, "x")],
+    .writeScalars h mark markS (!c.isGlobal) ]
+
+def scrambleOps (doc : List Stmt) (h : Nat) (c : Copy) : List Op := scrambleOpsWith mutated "x-mutated" doc h c
+
+def mutated2 : Text := "y-mutated".toList
+
+/-- what a caller sees through the copy it was handed as number `h` -/
+def readHandle (st : State) (h : Nat) : Option Stmt := st.handles[h]?.map (fun c => c.read st.doc)
 
 def stmtTag (name : Text) : Text := "stmt:".toList ++ name
 def noPolicy : Text := "no-applicable-policy".toList
@@ -499,7 +508,7 @@ def runQuery (F : CloneFacts) (pristine : List Stmt) (st : State) (q : Query)
   match selectQ st.doc q with
   | .error _ =>
     ({ selected := none, reversedSelected := rev, refRejected := refRejected, viaVerify := viaV, viaSkip := viaS,
-       copyEqual := true, intact := true }, st)
+       copyEqual := true, intact := true, independent := true }, st)
   | .ok s =>
     let c := clone F q.isBlob s
     let h := st.handles.length
@@ -510,8 +519,13 @@ def runQuery (F : CloneFacts) (pristine : List Stmt) (st : State) (q : Query)
     let intact := match selectQ st2.doc q with
       | .ok s2 => decide ((clone F q.isBlob s2).read st3.doc = got)
       | .error _ => false
+    -- the second copy is mutated too, with other values: the first copy must not notice
+    let st4 := match selectQ st2.doc q with
+      | .ok s2 => exec F st3 (scrambleOpsWith mutated2 "y-mutated" st3.doc st2.handles.length (clone F q.isBlob s2))
+      | .error _ => st3
     ({ selected := some got.name, reversedSelected := rev, refRejected := refRejected, viaVerify := viaV,
-       viaSkip := viaS, copyEqual := pristine.contains got, intact := intact }, st3)
+       viaSkip := viaS, copyEqual := pristine.contains got, intact := intact,
+       independent := decide (readHandle st4 h = readHandle st3 h) }, st4)
 
 def runQueries (F : CloneFacts) (i : Input) : List Text → State → List QObs × State
   | [], st => ([], st)
@@ -603,7 +617,8 @@ def selectionClauses (i : Input) (o : Obs) : Clauses :=
           g.viaVerify == classOfExpected (expectedGlobal i.stmts)
       | .blob, none => false),
     ("handed_out_statement_equals_the_original", allQ o (·.copyEqual)),
-    ("mutating_a_handed_out_copy_does_not_affect_later_selections", allQ o (·.intact)) ]
+    ("mutating_a_handed_out_copy_does_not_affect_later_selections", allQ o (·.intact)),
+    ("handed_out_copies_are_independent_of_each_other", allQ o (·.independent)) ]
 
 /-- the property over observables. A document that breaks a uniqueness rule must be refused by
 validation (then nothing is ever selected from it); for such a document every selection clause
